@@ -44,6 +44,7 @@
 #include "libvpsc/solve_VPSC.h"
 #include "libcola/cola.h"
 #include "libcola/compound_constraints.h"
+#include "libcola/cluster.h"
 #include "libvpsc/assertions.h"
 #include <set>
 #include <map>
@@ -115,6 +116,12 @@ struct Heap {
         return sig;
     }
 };
+
+// the process-global rectangle borders as an extra observable of every *-twice run
+static void pushBorders(Out &o) {
+    Vec v; v.push_back(vpsc::Rectangle::xBorder); v.push_back(vpsc::Rectangle::yBorder);
+    o.push_back(std::make_pair(std::string("borders"), v));
+}
 
 // ------------------------------------------------------------------------------------ routing scenes
 struct R4 { double x0, y0, x1, y1; };
@@ -278,6 +285,62 @@ static Out routeScene(const RScene &s, Avoid::Router **keepAlive = nullptr) {
     return o;
 }
 
+// Unrelated libcola / libvpsc work that touches PROCESS-GLOBAL state: the static vpsc::Rectangle::xBorder/yBorder
+// (set and restored by ConstrainedFDLayout::makeFeasible, ConstrainedMajorizationLayout with overlap avoidance,
+// GradientProjection, removeoverlaps), the static FILELog::ReportingLevel() (set by the ConstrainedFDLayout
+// constructor), the layout's PseudoRandom.  Different graph, own rectangles; nothing is shared with the runs.
+static void unrelatedCola(vh::Rng &r) {
+#ifdef C20_LSAN
+    __lsan::ScopedDisabler noLeakCheck;      // a library assertion (exception) inside may abandon allocations
+#endif
+    int n = (int) r.range(3, 7);
+    int variant = (int) r.range(0, 5);
+    // 0: makeFeasible() default borders (1,1) + run     1: makeFeasible(non-default, non-zero) + run
+    // 2: the same with a cluster hierarchy               3: ConstrainedMajorizationLayout with overlap avoidance
+    // 4: removeoverlaps with fixed set + third pass      5: makeFeasible(0, y) / (x, 0)
+    try {
+        vpsc::Rectangles rs;
+        for (int i = 0; i < n; ++i) {
+            double x = (double) r.range(0, 30), y = (double) r.range(0, 30), w = (double) r.range(4, 20), h = (double) r.range(4, 20);
+            rs.push_back(new vpsc::Rectangle(x, x + w, y, y + h));
+        }
+        std::vector<cola::Edge> es;
+        for (int i = 0; i + 1 < n; ++i) es.push_back(std::make_pair((unsigned) i, (unsigned) (i + 1)));
+        if (n > 3) es.push_back(std::make_pair(0u, (unsigned) (n - 1)));
+        if (variant == 3) {
+            cola::TestConvergence test(1e-3, 5);
+            cola::ConstrainedMajorizationLayout alg(rs, es, nullptr, 20.0, cola::StandardEdgeLengths, &test);
+            alg.setAvoidOverlaps(r.coin());
+            alg.run();
+        } else if (variant == 4) {
+            std::set<unsigned> fixed; fixed.insert(0);
+            vpsc::removeoverlaps(rs, fixed, true);
+        } else {
+            cola::TestConvergence test(1e-3, 6);
+            cola::ConstrainedFDLayout alg(rs, es, 25.0, cola::StandardEdgeLengths, &test);
+            alg.setAvoidNodeOverlaps(true);
+            cola::RootCluster *root = nullptr;
+            if (variant == 2) {
+                root = new cola::RootCluster();
+                cola::RectangularCluster *c = new cola::RectangularCluster();
+                c->addChildNode(0); c->addChildNode(1);
+                root->addChildCluster(c);
+                for (int i = 2; i < n; ++i) root->addChildNode((unsigned) i);
+                alg.setClusterHierarchy(root);
+            }
+            static const double bs[] = {0.5, 2, 3.5, 7};
+            if (variant == 0) alg.makeFeasible();
+            else if (variant == 5) { if (r.coin()) alg.makeFeasible(0, bs[r.range(0, 3)]); else alg.makeFeasible(bs[r.range(0, 3)], 0); }
+            else alg.makeFeasible(bs[r.range(0, 3)], bs[r.range(0, 3)]);
+            alg.run();
+            delete root;
+        }
+        for (auto *q : rs) delete q;
+    } catch (...) {
+        // the unrelated work itself may hit a library assertion; whatever it left behind is part of the history
+    }
+}
+
 // unrelated work between the two runs
 static void unrelatedWork(vh::Rng &r, Heap &heap) {
     heap.perturb(r);
@@ -292,6 +355,8 @@ static void unrelatedWork(vh::Rng &r, Heap &heap) {
     { vpsc::IncSolver sv(vs, cs); sv.solve(); }
     for (size_t i = 0; i < cs.size(); ++i) delete cs[i];
     for (size_t i = 0; i < vs.size(); ++i) delete vs[i];
+    unrelatedCola(r);
+    if (r.coin(1, 3)) unrelatedCola(r);
     heap.perturb(r);
 }
 
@@ -310,11 +375,17 @@ static void caseRouteTwice(long k, vh::Rng &r, bool orth) {
     Heap heap;
     long pa = Heap::probe();
     Avoid::Router *alive = nullptr;
-    Out a = routeScene(s, keepA ? &alive : nullptr);
+    Out a; pushBorders(a);
+    { Out t_ = routeScene(s, keepA ? &alive : nullptr); a.insert(a.end(), t_.begin(), t_.end()); }
+    pushBorders(a); a.back().first = "borders-after";
+    std::rotate(a.begin(), a.begin() + 1, a.end());      // results first, then borders-after, borders (before the run)
     printOut("A", a); fflush(stdout);
     unrelatedWork(r, heap);
     long pb = Heap::probe();
-    Out b = routeScene(s);
+    Out b; pushBorders(b);
+    { Out t_ = routeScene(s); b.insert(b.end(), t_.begin(), t_.end()); }
+    pushBorders(b); b.back().first = "borders-after";
+    std::rotate(b.begin(), b.begin() + 1, b.end());      // results first, then borders-after, borders (before the run)
     printOut("B", b);
     printf("heap %ld %ld\n", pa, pb);
     if (alive) delete alive;
@@ -429,11 +500,17 @@ static void caseVpscTwice(long k, vh::Rng &r) {
     printVP(p); fflush(stdout);
     Heap heap;
     long pa = Heap::probe();
-    Out a = solveVP(p, iota(p.d.size()), iota(p.cs.size()));
+    Out a; pushBorders(a);
+    { Out t_ = solveVP(p, iota(p.d.size()), iota(p.cs.size())); a.insert(a.end(), t_.begin(), t_.end()); }
+    pushBorders(a); a.back().first = "borders-after";
+    std::rotate(a.begin(), a.begin() + 1, a.end());      // results first, then borders-after, borders (before the run)
     printOut("A", a); fflush(stdout);
     unrelatedWork(r, heap);
     long pb = Heap::probe();
-    Out b = solveVP(p, iota(p.d.size()), iota(p.cs.size()));
+    Out b; pushBorders(b);
+    { Out t_ = solveVP(p, iota(p.d.size()), iota(p.cs.size())); b.insert(b.end(), t_.begin(), t_.end()); }
+    pushBorders(b); b.back().first = "borders-after";
+    std::rotate(b.begin(), b.begin() + 1, b.end());      // results first, then borders-after, borders (before the run)
     printOut("B", b);
     printf("heap %ld %ld\n", pa, pb);
     heap.release();
@@ -537,7 +614,10 @@ static void caseRemoveOverlaps(long k, vh::Rng &r, bool coincident) {
     Heap heap;
     // run A: compact heap state for the Node size class: addresses of consecutive `new Node` ascend or descend monotonically
     long pa = Heap::probe();
-    Out a = runRemoveOverlaps(in, iota((size_t) n));
+    Out a; pushBorders(a);
+    { Out t_ = runRemoveOverlaps(in, iota((size_t) n)); a.insert(a.end(), t_.begin(), t_.end()); }
+    pushBorders(a); a.back().first = "borders-after";
+    std::rotate(a.begin(), a.begin() + 1, a.end());      // results first, then borders-after, borders (before the run)
     printOut("A", a); fflush(stdout);
     unrelatedWork(r, heap);
     // force a random address order for the next allocations of every small size class
@@ -546,7 +626,10 @@ static void caseRemoveOverlaps(long k, vh::Rng &r, bool coincident) {
     long pb = Heap::probe();
     // the probe freed its 6 chunks in allocation order; scramble once more so that Node addresses are random again
     heap.scramble(r, 56, 3 * n + 8);
-    Out b = runRemoveOverlaps(in, orderB);
+    Out b; pushBorders(b);
+    { Out t_ = runRemoveOverlaps(in, orderB); b.insert(b.end(), t_.begin(), t_.end()); }
+    pushBorders(b); b.back().first = "borders-after";
+    std::rotate(b.begin(), b.begin() + 1, b.end());      // results first, then borders-after, borders (before the run)
     printOut("B", b);
     printf("heap %ld %ld\n", pa, pb);
     heap.release();
@@ -624,12 +707,18 @@ static void caseLayoutTwice(long k, vh::Rng &r) {
     fflush(stdout);
     Heap heap;
     long pa = Heap::probe();
-    Out a = runLayout(s);
+    Out a; pushBorders(a);
+    { Out t_ = runLayout(s); a.insert(a.end(), t_.begin(), t_.end()); }
+    pushBorders(a); a.back().first = "borders-after";
+    std::rotate(a.begin(), a.begin() + 1, a.end());      // results first, then borders-after, borders (before the run)
     printOut("A", a); fflush(stdout);
     unrelatedWork(r, heap);
     if (slow) usleep(1100000);
     long pb = Heap::probe();
-    Out b = runLayout(s);
+    Out b; pushBorders(b);
+    { Out t_ = runLayout(s); b.insert(b.end(), t_.begin(), t_.end()); }
+    pushBorders(b); b.back().first = "borders-after";
+    std::rotate(b.begin(), b.begin() + 1, b.end());      // results first, then borders-after, borders (before the run)
     printOut("B", b);
     printf("heap %ld %ld\n", pa, pb);
     heap.release();
